@@ -671,6 +671,43 @@ def r9(k: Kit) -> None:
                       'short blocks copy() ends after the first block and '
                       'reports success', k.loc(fi, b),
                       g.describe_path(w) if w else None)
+    copy_loop_progress(k, 'C12.R9')
+
+
+def copy_loop_progress(k: Kit, rule: str) -> None:
+    """Shared with C10.R14: an empty read ends the copy loop."""
+    rep = k.rep
+    fi = k.func('sftp.SFTPServerHandler._process_copy_data')
+    g = k.cfg(fi)
+    reads = [n for n, c in k.calls_named(fi, 'read', 'self._server')]
+    rep.floor(rule, 'copy loop reads', len(reads), 1)
+    for rd in reads:
+        loop = idx_enclosing_while(None, rd.ast)
+        if loop is None:
+            rep.violation(rule, key(fi, 'copy loop'), 'read is not in a loop',
+                          k.loc(fi, rd))
+            continue
+        first = g.node_for(loop.test if not isinstance(loop.test, ast.BoolOp)
+                           else loop.test.values[0])
+        w = g.guarded_by(first.id, lambda x: True if x.kind == 'atom' and
+                         dotted(x.ast) == 'data' else (
+                             False if x.kind == 'atom' and
+                             isinstance(x.ast, ast.Compare) and
+                             norm(x.ast) in ('len(data) == 0',) else None),
+                         start=rd.id)
+        rep.check(w is None, rule, key(fi, 'empty read ends the loop'),
+                  'the loop test is reached again only when the read '
+                  'returned data',
+                  'the copy loop goes round again after a read that returned '
+                  'nothing: a request whose length exceeds the source file '
+                  'never finishes (with a synchronous SFTPServer the event '
+                  'loop is blocked for good)', k.loc(fi, rd),
+                  g.describe_path(w) if w else None)
+
+
+def idx_enclosing_while(_unused, node):
+    from ..index import enclosing
+    return enclosing(node, (ast.While,))
 
 
 def run(idx, rep, tier):
